@@ -82,13 +82,13 @@ type c01CertWorld struct {
 }
 
 type c01Built struct {
-	spec     c01CertSpec
-	chain    [][]byte            // DER
-	parsed   []*x509.Certificate // nil when some certificate does not parse
-	certKey  crypto.PrivateKey
+	spec    c01CertSpec
+	chain   [][]byte            // DER
+	parsed  []*x509.Certificate // nil when some certificate does not parse
+	certKey crypto.PrivateKey
 	// replayedLeaf: the leaf is another peer's genuine certificate whose key the endpoint does not hold
 	replayedLeaf bool
-	parseErr error
+	parseErr     error
 	// authentic: the identities for which the leaf really carries an extension signed by that identity's
 	// private key over the leaf's certificate key (what the handshake proves possession of).
 	authentic map[peer.ID]bool
